@@ -79,6 +79,10 @@ func (r *Report) guard(rule, construct string, in ssa.Instruction, reqs ...Req) 
 	all := true
 	for _, q := range reqs {
 		ok, wit := r.e.guardedOnAllPaths(in, q)
+		if !ok && r.e.guardedInCallers(in.Parent(), q, 3, map[*ssa.Function]bool{}) {
+			// the guard sits in every caller of the helper the site was moved into
+			ok, wit = true, nil
+		}
 		if !ok {
 			all = false
 		}
@@ -96,6 +100,7 @@ func (r *Report) guard(rule, construct string, in ssa.Instruction, reqs ...Req) 
 // guardedOnAllPaths: no path entry -> in.Block() avoids every edge that
 // establishes q.
 func (e *Engine) guardedOnAllPaths(in ssa.Instruction, q Req) (bool, []ssa.Instruction) {
+	r := e
 	fn := in.Parent()
 	target := in.Block()
 	if len(fn.Blocks) == 0 {
@@ -132,7 +137,7 @@ func (e *Engine) guardedOnAllPaths(in ssa.Instruction, q Req) (bool, []ssa.Instr
 				continue
 			}
 			if ifi != nil && n.b.Succs[0] != n.b.Succs[1] {
-				if q.Has(expandFacts([]Fact{{ifi.Cond, i == 0}})) {
+				if r.holds(q, expandFacts([]Fact{{ifi.Cond, i == 0}}), 2) {
 					continue // this edge establishes the fact
 				}
 			}
@@ -779,7 +784,7 @@ func (r *Report) returnsOnlyUnder(rule, construct string, fn *ssa.Function, idx 
 			here := FactsAt(ret)
 			all := true
 			for _, alt := range valueAlternatives(v, pol, 0) {
-				if !q.Has(append(append([]Fact{}, here...), alt...)) {
+				if !e.holds(q, append(append([]Fact{}, here...), alt...), 2) {
 					all = false
 				}
 			}
@@ -804,7 +809,7 @@ func (r *Report) returnsOnlyUnder(rule, construct string, fn *ssa.Function, idx 
 // crosses no edge establishing the exempting fact?
 func (e *Engine) pathUnless(fn *ssa.Function, from ssa.Instruction, target, barrier func(ssa.Instruction) bool, exempt Req) PathResult {
 	return e.findPath(fn, from, target, barrier, func(p, s *ssa.BasicBlock) bool {
-		return !exempt.Has(expandFacts(edgeOnly(p, s)))
+		return !e.holds(exempt, expandFacts(edgeOnly(p, s)), 2)
 	})
 }
 
@@ -817,5 +822,269 @@ func isStoreToField(fld *types.Var) func(ssa.Instruction) bool {
 		}
 		f, _, ok := fieldOfAddr(s.Addr)
 		return ok && f == fld
+	}
+}
+
+// ---------------------------------------------------------------------------
+// interprocedural guards
+
+// guardedInCallers: every (non-go) call site of fn in live module code is
+// itself guarded by q, in its function or, recursively, in that function's
+// callers. A function without callers is an entry: not guarded.
+func (e *Engine) guardedInCallers(fn *ssa.Function, q Req, depth int, seen map[*ssa.Function]bool) bool {
+	if depth == 0 || seen[fn] {
+		return false
+	}
+	seen[fn] = true
+	if fn.Parent() != nil {
+		// a closure: its "caller" is the place it is invoked; immediately
+		// invoked literals are inlined by position: use the enclosing function's
+		// facts at the MakeClosure site
+		ok := false
+		forEachInstr(fn.Parent(), func(in ssa.Instruction) {
+			if mc, isMC := in.(*ssa.MakeClosure); isMC && mc.Fn == ssa.Value(fn) {
+				if g, _ := e.guardedOnAllPaths(mc, q); g || e.guardedInCallers(fn.Parent(), q, depth-1, seen) {
+					ok = true
+				}
+			}
+		})
+		return ok
+	}
+	sites := e.CallerSites(fn)
+	n := 0
+	for _, s := range sites {
+		if _, isGo := s.(*ssa.Go); isGo {
+			return false
+		}
+		if p := fnPkg(s.Parent()); p == nil || !scopePkg(p.Path()) || !e.IsLive(outermostFn(s.Parent())) {
+			continue
+		}
+		n++
+		if g, _ := e.guardedOnAllPaths(s.(ssa.Instruction), q); g {
+			continue
+		}
+		if !e.guardedInCallers(s.Parent(), q, depth-1, seen) {
+			return false
+		}
+	}
+	return n > 0
+}
+
+func outermostFn(fn *ssa.Function) *ssa.Function {
+	for fn.Parent() != nil {
+		fn = fn.Parent()
+	}
+	return fn
+}
+
+// holds: the facts satisfy q, directly or through a predicate helper: when a
+// fact says that a call of a small module function returned true/false (or a
+// nil / non-nil error), q is also satisfied if every way that function can
+// return such a value establishes q inside it (its own branch facts and the
+// facts of the returned value). Values are matched by shape, so a
+// requirement phrased over fields, constants and callees carries over; one
+// phrased over a specific parameter of the outer function does not (and
+// stays unsatisfied - no unsoundness, possibly a report).
+func (e *Engine) holds(q Req, facts []Fact, depth int) bool {
+	if q.Has(facts) {
+		return true
+	}
+	if depth == 0 {
+		return false
+	}
+	for _, f := range facts {
+		call, idx, kind, pol := calleeFact(f)
+		if call == nil {
+			continue
+		}
+		g := call.Call.StaticCallee()
+		if g == nil {
+			cs := e.Callees(call)
+			if len(cs) != 1 {
+				continue
+			}
+			g = cs[0]
+		}
+		if p := fnPkg(g); p == nil || !inModule(p) || len(g.Blocks) == 0 || len(g.Blocks) > 40 {
+			continue
+		}
+		alts := e.returnAlternatives(g, idx, kind, pol)
+		if len(alts) == 0 {
+			continue
+		}
+		// bind the helper's parameters to the call's arguments
+		var bound []*ssa.Parameter
+		args := call.Call.Args
+		off := 0
+		if call.Call.IsInvoke() {
+			off = 1 // Params[0] is the receiver, Args excludes it
+		}
+		for i, a := range args {
+			if i+off < len(g.Params) {
+				p := g.Params[i+off]
+				if _, exists := paramBind[p]; !exists {
+					paramBind[p] = a
+					bound = append(bound, p)
+				}
+			}
+		}
+		all := true
+		for _, alt := range alts {
+			if !e.holds(q, alt, depth-1) {
+				all = false
+				break
+			}
+		}
+		for _, p := range bound {
+			delete(paramBind, p)
+		}
+		if all {
+			return true
+		}
+	}
+	return false
+}
+
+// calleeFact: the fact is about the result of a call: a boolean result (or
+// extracted boolean result) with a polarity, or an error result compared
+// with nil. kind is "bool" or "nil"; for "nil" pol says "is nil".
+func calleeFact(f Fact) (call *ssa.Call, idx int, kind string, pol bool) {
+	v := f.V
+	if b, ok := v.(*ssa.BinOp); ok && (b.Op == token.EQL || b.Op == token.NEQ) {
+		other := ssa.Value(nil)
+		if isNilConst(b.X) {
+			other = b.Y
+		} else if isNilConst(b.Y) {
+			other = b.X
+		}
+		if other == nil {
+			return nil, 0, "", false
+		}
+		isNil := (b.Op == token.EQL) == f.Pol
+		other = stripChangeInterface(other)
+		if ex, ok := other.(*ssa.Extract); ok {
+			if c, ok := ex.Tuple.(*ssa.Call); ok {
+				return c, ex.Index, "nil", isNil
+			}
+		}
+		if c, ok := other.(*ssa.Call); ok {
+			return c, 0, "nil", isNil
+		}
+		return nil, 0, "", false
+	}
+	if ex, ok := v.(*ssa.Extract); ok {
+		if c, ok := ex.Tuple.(*ssa.Call); ok {
+			if bt, isB := ex.Type().Underlying().(*types.Basic); isB && bt.Kind() == types.Bool {
+				return c, ex.Index, "bool", f.Pol
+			}
+		}
+		return nil, 0, "", false
+	}
+	if c, ok := v.(*ssa.Call); ok {
+		if bt, isB := c.Type().Underlying().(*types.Basic); isB && bt.Kind() == types.Bool {
+			return c, 0, "bool", f.Pol
+		}
+	}
+	return nil, 0, "", false
+}
+
+// returnAlternatives: for each return of g whose result #idx can be of the
+// wanted kind/polarity, the facts that hold there.
+func (e *Engine) returnAlternatives(g *ssa.Function, idx int, kind string, pol bool) [][]Fact {
+	var out [][]Fact
+	forEachInstr(g, func(in ssa.Instruction) {
+		ret, ok := in.(*ssa.Return)
+		if !ok || idx >= len(ret.Results) {
+			return
+		}
+		v := retOperand(ret, idx)
+		here := FactsAt(ret)
+		switch kind {
+		case "bool":
+			if cb, isC := isConstBool(v); isC {
+				if cb == pol {
+					out = append(out, here)
+				}
+				return
+			}
+			for _, alt := range valueAlternatives(v, pol, 0) {
+				out = append(out, append(append([]Fact{}, here...), alt...))
+			}
+		case "nil":
+			if isNilConst(v) {
+				if pol {
+					out = append(out, here)
+				}
+				return
+			}
+			if !pol || !e.knownNonNil(v, ret) {
+				out = append(out, here)
+			}
+		}
+	})
+	return out
+}
+
+// onlyCalledFrom: fn is one of the allowed functions (by key), or a helper
+// whose every live caller is (recursively, depth-bounded). covered collects
+// the allowed functions reached.
+func (e *Engine) onlyCalledFrom(fn *ssa.Function, allowed map[string]bool, covered map[string]bool, depth int) bool {
+	fn = outermostFn(fn)
+	if allowed[fname(fn)] {
+		covered[fname(fn)] = true
+		return true
+	}
+	if depth == 0 {
+		return false
+	}
+	n := 0
+	for _, s := range e.CallerSites(fn) {
+		if p := fnPkg(s.Parent()); p == nil || !scopePkg(p.Path()) || !e.IsLive(outermostFn(s.Parent())) {
+			continue
+		}
+		n++
+		if !e.onlyCalledFrom(s.Parent(), allowed, covered, depth-1) {
+			return false
+		}
+	}
+	return n > 0
+}
+
+// regionOf: fn, its closures, and the functions of the same package it
+// calls statically, transitively to the given depth: "the code of fn" for
+// rules that must not depend on how fn is split into helpers.
+func (e *Engine) regionOf(fn *ssa.Function, depth int) []*ssa.Function {
+	seen := map[*ssa.Function]bool{}
+	var out []*ssa.Function
+	var visit func(f *ssa.Function, d int)
+	visit = func(f *ssa.Function, d int) {
+		if f == nil || seen[f] || len(f.Blocks) == 0 {
+			return
+		}
+		seen[f] = true
+		out = append(out, f)
+		for _, a := range f.AnonFuncs {
+			visit(a, d)
+		}
+		if d == 0 {
+			return
+		}
+		forEachCall(f, func(c ssa.CallInstruction) {
+			if _, isGo := c.(*ssa.Go); isGo {
+				return
+			}
+			if sc := c.Common().StaticCallee(); sc != nil && fnPkg(sc) != nil && fnPkg(sc) == fnPkg(fn) {
+				visit(sc, d-1)
+			}
+		})
+	}
+	visit(fn, depth)
+	return out
+}
+
+// forEachInstrRegion applies f to every instruction of the region of fn.
+func (e *Engine) forEachInstrRegion(fn *ssa.Function, depth int, f func(in ssa.Instruction)) {
+	for _, g := range e.regionOf(fn, depth) {
+		forEachInstr(g, f)
 	}
 }
